@@ -12,7 +12,7 @@ from ..rng import digest
 from .. import observe as ob
 
 PROP = "C05"
-RUNS = {"quick": 8000, "thorough": 500000}
+RUNS = {"quick": 8000, "thorough": 200000}
 WALL = {"quick": 280, "thorough": 3500}
 RULE = ("one run = valid document + scheduled delivery + history of legal add/rm/disconnect/rename/"
         "tag edits applied to gfapy and to the text model; compared at every settled step; distinct = "
